@@ -246,7 +246,7 @@ func init() {
 		Config: func(any) simrt.Config {
 			return simrt.Config{MaxSteps: 100000, IdleProbe: 5 * time.Second, ClockJumpPM: 10}
 		},
-		Runs: clientRuns(50000, 5000000),
+		Runs: clientRuns(200000, 10000000),
 		Floors: []Floor{
 			{Name: "single-fault", Count: func(t string) int { return len(c11Floor(t)) }, Scenario: func(t string, i int) any { return c11Floor(t)[i] }},
 			{Name: "single-preemption", Sweep: true, Count: func(t string) int { return len(c11SweepFloor(t)) }, Scenario: func(t string, i int) any { return c11SweepFloor(t)[i] }},
